@@ -34,40 +34,120 @@ func recvReady[C interface{ ~chan T | ~<-chan T }, T any](ch C) bool {
 	}
 }
 
+// ---- unbuffered channels (controlled mode): a rendezvous through a side table. The
+// real channel is never used to transfer a value between engine threads: the sender
+// deposits the value when a receiver is parked on the channel and proceeds once it was
+// taken, so no thread ever blocks natively.
+
+type slot struct {
+	full    bool
+	val     any // *T
+	waiting int // receivers parked on the channel
+}
+
+func slotOf(ch any) *slot {
+	k := chanKey(ch)
+	sl := s.slots[k]
+	if sl == nil {
+		sl = &slot{}
+		s.slots[k] = sl
+		s.keep = append(s.keep, ch)
+	}
+	return sl
+}
+
+func isClosed(ch any) bool {
+	_, ok := s.closed[chanKey(ch)]
+	return ok
+}
+
 func sendReady[C interface{ ~chan T | ~chan<- T }, T any](ch C) bool {
 	if ch == nil {
 		return false
 	}
-	if _, ok := s.closed[chanKey(ch)]; ok {
+	if isClosed(ch) {
 		return true // will panic, like the real operation
 	}
 	if cap(ch) == 0 {
-		Unsupported("send on unbuffered channel")
-		return false
+		sl := slotOf(ch)
+		return !sl.full && sl.waiting > 0
 	}
 	return len(ch) < cap(ch)
 }
 
-func Send[C interface{ ~chan T | ~chan<- T }, T any](ch C, v T) {
-	if controlled {
-		point(OpSend, func() bool { return sendReady[C, T](ch) })
+// doSend performs a send that sendReady has declared possible.
+func doSend[C interface{ ~chan T | ~chan<- T }, T any](ch C, v T) {
+	if cap(ch) == 0 && !isClosed(ch) {
+		sl := slotOf(ch)
+		sl.val = &v
+		sl.full = true
+		point(OpSend, func() bool { return !sl.full })
+		return
 	}
 	ch <- v
 }
 
-func Recv[C interface{ ~chan T | ~<-chan T }, T any](ch C) T {
-	if controlled {
-		point(OpRecv, func() bool { return recvReady[C, T](ch) })
+func recvReadyU[C interface{ ~chan T | ~<-chan T }, T any](ch C) bool {
+	if ch == nil {
+		return false
 	}
-	return <-ch
+	if cap(ch) == 0 {
+		if sl := s.slots[chanKey(ch)]; sl != nil && sl.full {
+			return true
+		}
+	}
+	return recvReady[C, T](ch)
 }
 
-func Recv2[C interface{ ~chan T | ~<-chan T }, T any](ch C) (T, bool) {
-	if controlled {
-		point(OpRecv, func() bool { return recvReady[C, T](ch) })
+// doRecv performs a receive that recvReadyU has declared possible.
+func doRecv[C interface{ ~chan T | ~<-chan T }, T any](ch C) (T, bool) {
+	if cap(ch) == 0 {
+		if sl := s.slots[chanKey(ch)]; sl != nil && sl.full {
+			v := *(sl.val.(*T))
+			sl.val = nil
+			sl.full = false
+			return v, true
+		}
 	}
 	v, ok := <-ch
 	return v, ok
+}
+
+func waitOn(ch any, d int) {
+	if ch != nil && reflect.ValueOf(ch).Cap() == 0 {
+		slotOf(ch).waiting += d
+	}
+}
+
+func Send[C interface{ ~chan T | ~chan<- T }, T any](ch C, v T) {
+	if !controlled {
+		ch <- v
+		return
+	}
+	point(OpSend, func() bool { return sendReady[C, T](ch) })
+	doSend[C, T](ch, v)
+}
+
+func Recv[C interface{ ~chan T | ~<-chan T }, T any](ch C) T {
+	if !controlled {
+		return <-ch
+	}
+	waitOn(ch, 1)
+	point(OpRecv, func() bool { return recvReadyU[C, T](ch) })
+	waitOn(ch, -1)
+	v, _ := doRecv[C, T](ch)
+	return v
+}
+
+func Recv2[C interface{ ~chan T | ~<-chan T }, T any](ch C) (T, bool) {
+	if !controlled {
+		v, ok := <-ch
+		return v, ok
+	}
+	waitOn(ch, 1)
+	point(OpRecv, func() bool { return recvReadyU[C, T](ch) })
+	waitOn(ch, -1)
+	return doRecv[C, T](ch)
 }
 
 func Close[C interface{ ~chan T | ~chan<- T }, T any](ch C) {
@@ -83,6 +163,7 @@ func Close[C interface{ ~chan T | ~chan<- T }, T any](ch C) {
 type SelCase interface {
 	ready() bool
 	fire()
+	wait(d int)
 	rcase() reflect.SelectCase
 	set(v reflect.Value, ok bool)
 	try() bool
@@ -98,8 +179,9 @@ func RecvCase[C interface{ ~chan T | ~<-chan T }, T any](ch C) *RCase[T] {
 	return &RCase[T]{ch: (<-chan T)(ch)}
 }
 
-func (c *RCase[T]) ready() bool { return recvReady[<-chan T, T](c.ch) }
-func (c *RCase[T]) fire()       { c.Val, c.Ok = <-c.ch }
+func (c *RCase[T]) ready() bool { return recvReadyU[<-chan T, T](c.ch) }
+func (c *RCase[T]) fire()       { c.Val, c.Ok = doRecv[<-chan T, T](c.ch) }
+func (c *RCase[T]) wait(d int)  { waitOn(c.ch, d) }
 func (c *RCase[T]) rcase() reflect.SelectCase {
 	return reflect.SelectCase{Dir: reflect.SelectRecv, Chan: reflect.ValueOf(c.ch)}
 }
@@ -131,7 +213,8 @@ func SendCase[C interface{ ~chan T | ~chan<- T }, T any](ch C, v T) *SCase[T] {
 }
 
 func (c *SCase[T]) ready() bool { return sendReady[chan<- T, T](c.ch) }
-func (c *SCase[T]) fire()       { c.ch <- c.v }
+func (c *SCase[T]) fire()       { doSend[chan<- T, T](c.ch, c.v) }
+func (c *SCase[T]) wait(int)    {}
 func (c *SCase[T]) rcase() reflect.SelectCase {
 	return reflect.SelectCase{Dir: reflect.SelectSend, Chan: reflect.ValueOf(c.ch), Send: reflect.ValueOf(&c.v).Elem()}
 }
@@ -180,7 +263,13 @@ func Select(hasDefault bool, cases ...SelCase) int {
 		}
 		return false
 	}
+	for _, c := range cases {
+		c.wait(1)
+	}
 	point(OpSelect, anyReady)
+	for _, c := range cases {
+		c.wait(-1)
+	}
 	var ready [8]int
 	rd := ready[:0]
 	for i, c := range cases {
